@@ -77,6 +77,7 @@ struct ClmRoundtrip : Family {
 			w.set("name", nm).set("ext", r.chance(1, 12) ? ODD[r.below(5)] : EXT[r.below(4)]).set("dir", r.chance(1, 4) ? std::string("-") : "_w" + std::to_string(r.below(3))).set("cseed", hex64(r.next())).set("len", len)
 			 .set("fmt16", r.chance(1, 4) ? 1 : 0).set("cb", r.chance(1, 2) ? 0 : r.below(65536)).set("pre", r.chance(2, 3) ? 0 : r.range(1, 2)).set("mid", r.chance(2, 3) ? 0 : r.range(1, 2)).set("post", r.chance(1, 2) ? 0 : r.range(1, 3)).set("sp", r.below(7));
 			if (r.chance(1, 10)) w.set("link", 1);
+			if (r.chance(1, 3)) w.set("padlast", 1);
 			p.world.push_back(w);
 		}
 		for (size_t i = p.world.size(); i > 2; --i) std::swap(p.world[i - 1], p.world[1 + r.below(i - 1)]);
@@ -149,6 +150,7 @@ struct ClmRoundtrip : Family {
 			w.beforeFmt = chunksFor(cs ^ 1, l.u("pre", 0));
 			w.between = chunksFor(cs ^ 2, l.u("mid", 0));
 			w.afterData = chunksFor(cs ^ 3, l.u("post", 0));
+			w.padLastData = l.u("padlast", 0) != 0;
 			w.data = prngBytes(cs, static_cast<size_t>(l.u("len", 0)));
 			if (w.data.size() > (1u << 20)) throw std::runtime_error("wav too large");
 			if (!w.afterData.empty()) postChunkSeen = true;
